@@ -389,6 +389,34 @@ func gen(r *prng.R, f proto.Flags, emit func(proto.Case)) {
 		id++
 		emit(proto.Case{ID: fmt.Sprintf("d%d", id), Ops: genDispatchCase(r.Fork())})
 	}
+	// first-use stress at the dispatcher level: a FRESHLY loaded configuration (nothing of it was ever used: lazily
+	// resolved remedy types, limiter keys, plugin state) whose very first requests arrive concurrently, released by a
+	// spin barrier; then a second burst in the same window and one in the next
+	nfu := 400
+	if f.Tier == "thorough" {
+		nfu = 4000
+	}
+	for k := 0; k < nfu*f.Budget; k++ {
+		rr := r.Fork()
+		allowed := rr.Range(1, 12)
+		win := prng.Pick(rr, []int64{2, 60, 3600})
+		u := prng.Pick(rr, dURLs)
+		m := prng.Pick(rr, []string{"GET", "POST"})
+		ops := []string{fmt.Sprintf("dpol scope=%s name=t1 enabled=1 kind=throttle allowed=%d win=%d status=%d spill=0 renew=0",
+			prng.Pick(rr, []string{"e url=" + proto.Enc(u) + " method=" + m, "g"}), allowed, win, prng.Pick(rr, []int{0, 429, 503}))}
+		if rr.Chance(40) {
+			ops = append(ops, fmt.Sprintf("dpol scope=e url=%s method=%s name=aux enabled=1 kind=%s", proto.Enc(u), m,
+				prng.Pick(rr, []string{"retry attempts=1 cooldown=0 mult=1 lo=429 hi=503", "basic", "cache ttl=10000000 maxrec=100000"})))
+		}
+		t := 1000*sec + 1 + int64(rr.Intn(int(sec)-1))
+		par := prng.Pick(rr, []int{2, 4, 8, 16})
+		ops = append(ops, "dload",
+			fmt.Sprintf("dburst url=%s method=%s t=%d n=%d par=%d", proto.Enc(u), m, t, par*rr.Range(1, 2), par),
+			fmt.Sprintf("dburst url=%s method=%s t=%d n=%d par=%d", proto.Enc(u), m, t+1, rr.Range(1, 16), prng.Pick(rr, []int{2, 8})),
+			fmt.Sprintf("dburst url=%s method=%s t=%d n=%d par=%d", proto.Enc(u), m, t+win*sec, rr.Range(1, 16), prng.Pick(rr, []int{2, 8})))
+		id++
+		emit(proto.Case{ID: fmt.Sprintf("fu%d", id), Ops: ops})
+	}
 	// concurrency stress: many goroutines on few keys, bursts larger than the cap, several windows
 	nst := 600
 	if f.Tier == "thorough" {
